@@ -486,8 +486,27 @@ def set_eps(ctx=None):
         ref.UNIT_DAYS[u] = F(repr(float(ss.time.time_units[u])))
 
 
+def check_consts(ctx):
+    """ The driver must have been built from the tables extracted in THIS run (another check running concurrently
+        against a different tree rewrites the shared Generated/*.lean): otherwise the run is void, not a violation """
+    from harness import framework
+    f = (ctx.extracted.get('TimeDefaults') or {}).get('facts')
+    tu = (ctx.extracted.get('TimeUnits') or {}).get('facts')
+    if not f or not tu: return
+    out = ctx.drive(DRIVER, ['consts'])[0]
+    d = dict(p.split('=', 1) for p in out.split()[1:])
+    units = {k: F(v) for k, v in (x.split(':') for x in d['units'].split(','))}
+    y, m, dd = (int(x) for x in f['default_start_date'].split('-'))
+    ok = (units == {k: F(v) for k, v in tu.items()} and F(d['dur']) == F(f['default_dur']) and d['unit'] == f['default_unit']
+          and int(d['year']) == f['default_start_year'] and d['date'] == f'{y}-{m}-{dd}' and int(d['decimals']) == f['decimals']
+          and F(d['dt']) == F(f['sim_dt']))
+    if not ok:
+        raise framework.Infra(f'the Lean model was built from other Generated/*.lean than this run extracted (concurrent check?): driver {out!r} vs extracted {tu} {f}')
+
+
 def correspond(ctx):
     set_eps(ctx)
+    check_consts(ctx)
     check_contracts(ctx)
     rng = ctx.rng
     # (1) the sim's own timeline
@@ -586,6 +605,7 @@ def correspond(ctx):
             ndiv += 1
             ctx.broke('correspondence', 'C07.module', f"sim {fmt_spec(s)} with {c['modkind']}({fmt_spec(c['mod'])}) diverges from Model/Timeline.lean: {div}", data=dict(kind='mod', **c))
             if ndiv >= 5: break
+    check_consts(ctx)
 
 
 def fmt_spec(s):
@@ -672,10 +692,27 @@ def oracle_case(case):
         elif mo['numeric'] and so['numeric'] and mo['unit'] == so['unit']:
             mspec.update(start=sspec['start'], stop=sspec['stop'], dt=sspec['dt'] if float(mo['dt']) == float(so['dt']) else mspec['dt'])
         fails += ref.check_timeline(mspec, mobs, who)
+        fails += check_defaults(r['modpars'].get(name), so, mo, sobs, mobs, who)
         pf, skipped = ref.check_placement(sspec, sobs, mspec, mobs, who)
         fails += pf
         if skipped: info['skipped'].append(skipped)
     return fails, info
+
+
+def check_defaults(given, so, mo, sobs, mobs, who):
+    """ What a module does not specify comes from its sim: the unit; the dt when the units agree (else 1); the first
+        and last instant.  `given` = the time parameters the constructed module held before sim.init() """
+    fails = []
+    if given is None: return fails
+    def fail(cause, what): fails.append(dict(signature=dict(oracle='module-defaults', cause=cause), what=f'{who}: {what}'))
+    if given['unit'] is None and mo['unit'] != so['unit']:
+        fail('unit', f"no unit given but the module runs in {mo['unit']} while the sim runs in {so['unit']}")
+    exp_dt = float(given['dt']) if given['dt'] is not None else (float(so['dt']) if mo['unit'] == so['unit'] else 1.0)
+    if float(mo['dt']) != exp_dt:
+        fail('dt', f"dt={mo['dt']} but expected {exp_dt} ({'given' if given['dt'] is not None else 'sim dt' if mo['unit'] == so['unit'] else '1.0 since the units differ'})")
+    if given['start'] is None and mobs.npts and sobs.npts and abs((mobs.datevec[0] - sobs.datevec[0]).days) > 1:
+        fail('start', f'no start given but the module starts on {mobs.datevec[0]} while the sim starts on {sobs.datevec[0]}')
+    return fails
 
 
 def expected_name(case):
